@@ -36,7 +36,7 @@ SCHEME_ORDERS = ["stpd", "sptd", "tspd", "tpsd", "pstd", "ptsd", "stdp", "spdt",
 
 TIERS = {
     # lives, random models, option sets per model, max models per life, large shipped models
-    "quick": dict(lives=64, n_random=18, n_mut=2, optsets=3, per_life=(2, 4), large=False,
+    "quick": dict(lives=128, n_random=28, n_mut=2, optsets=3, per_life=(2, 4), large=False,
                   p_rl=0.35, budget=600, ddmin_trials=600),
     "thorough": dict(lives=1500, n_random=320, n_mut=12, optsets=4, per_life=(2, 5), large=True,
                      p_rl=0.35, budget=1800, ddmin_trials=1200),
@@ -208,7 +208,7 @@ def build_life(rng: random.Random, k: int, pool: list, cfg: dict, phase: int, ar
         if use["public"]:
             body.append({"op": "USE_PUBLIC", "h": h, "fn": m["public_fn"], "backend": "numpy"})
         if use["derive"] and not m["large"]:
-            how = rng.choice(["comp", "minus", "reload", "reload", "simplify", "nosing"])
+            how = rng.choice(["comp", "minus", "reload", "reload", "comp", "minus", "reload", "simplify", "nosing"])
             h2 = "%sd" % h
             body.append({"op": "DERIVE", "h": h, "new": h2, "how": how, "ci": m["comp_ci"]})
             body.append({"op": "GEN", "h": h2, "opts": m["optsets"][0]})
@@ -724,6 +724,9 @@ def summarise(pool, plans, results, groups, viols, unjudged, tier, seed, wall, e
                          "stub": []},
         "repo": core.repo_state(),
     }
+    slow = sorted(((ev.get("ms", 0), ev["op"], r["life"]) for r in results for ev in r["events"]), reverse=True)[:5]
+    cov["slowest_ops_ms"] = [list(x) for x in slow]
+    cov["life_wall_s_max"] = round(max(r.get("wall_s", 0) for r in results), 1)
     cov.update(extra)
     return cov
 
